@@ -70,6 +70,10 @@ def run(ctx):
     if not rc.ok or not ccases:
         ctx.inconclusive("ShwapContainers produced no cases")
         return
+    reuse = ctx.tlc("shwap/ShwapContainers.tla", "shwap/ShwapContainers_reuse.cfg", must_pass=False, count=False, workers=4,
+                    timeout=300, deadlock=False)
+    if reuse.violated != "DecodeIgnoresReceiver":
+        ctx.inconclusive("model sensitivity lost: a ReadFrom that keeps the receiver's proofs does not violate DecodeIgnoresReceiver")
     ccases_path = os.path.join(ctx.work, "container_cases.json")
     json.dump(ccases, open(ccases_path, "w"))
 
@@ -80,7 +84,7 @@ def run(ctx):
     cnt = rep.get("counters", {}) or {}
     model_accepts = by.get("decoded", 0) + by.get("cidback", 0)
     if cnt.get("roundtrips_ok", 0) < 1 or cnt.get("raw_rejected", 0) < 1 or cnt.get("cid_rejected", 0) < 1 \
-            or cnt.get("container_roundtrips_ok", 0) < 1 or cnt.get("arbitrary_inputs", 0) < 1 or cnt.get("id_refused", 0) < 1:
+            or cnt.get("container_roundtrips_ok", 0) < 1 or cnt.get("container_range_reused_receiver_ok", 0) < 1 or cnt.get("arbitrary_inputs", 0) < 1 or cnt.get("id_refused", 0) < 1:
         ctx.inconclusive("vacuity: the driver did not exercise every class of case: %s" % cnt)
     if not ctx.violations and not ctx.inconclusives:
         if cnt.get("roundtrips_ok", 0) != model_accepts:
